@@ -330,6 +330,15 @@ func c20Calls(thorough bool) []jcall {
 			}
 		}
 	}
+	// windows beyond the documented maximum (and far beyond): refused with 'error:' by both validators, never a verdict
+	for _, sk := range []any{11, 12, 100, 255, 256, 65536, 1000000, uint64(1) << 32, uint64(1) << 53} {
+		for _, al := range []string{"SHA1", "SHA512"} {
+			add("refused-window", "validateHOTP", u, ref.HOTP(c20Key, 5, 6, refAlgo(al)), 5, "6", al, sk)
+			add("refused-window", "validateHOTP", u, "000000", 5, "6", al, sk)
+			add("refused-window", "validateTOTP", u, ref.HOTP(c20Key, 1, 6, refAlgo(al)), 59, "6", al, sk, 30)
+			add("refused-window", "validateTOTP", u, "000000", 59, "6", al, sk, 30)
+		}
+	}
 	// undecodable secrets (must be answered with 'error:' every time) and every call issued twice in a
 	// row / alternated with its neighbour: a remembered argument or result must never answer the next call
 	bad := []string{"!!!notbase32", "MZXW6YTB0", "A", "ABC=====", "ıııııııı"}
